@@ -31,12 +31,35 @@ theorem opCode_nat (op : BOp) (y : RA) :
 theorem storeA_nat (v : LV) : storeA (f n) (fun a => f (r a)) v = (storeA n r v).map fun p => (p.1, f p.2) := by
   cases v <;> simp [storeA]
 
-theorem asgCode_nat (v : LV) (a : RA) :
-    asgCode (f n) (fun a => f (r a)) v a = (asgCode n r v a).map fun p => (p.1, f p.2) := by
-  cases v <;> cases a <;> simp [asgCode]
+theorem asgCode_nat (zp : String → Bool) (v : LV) (a : RA) :
+    asgCode (f n) (fun a => f (r a)) zp v a = (asgCode n r zp v a).map fun p => (p.1, f p.2) := by
+  cases v with
+  | var w => cases a <;> simp [asgCode]
+  | x =>
+    cases a with
+    | of b =>
+      cases b with
+      | el t i => cases i <;> simp [asgCode]
+      | _ => simp [asgCode]
+    | _ => simp [asgCode]
+  | y =>
+    cases a with
+    | of b =>
+      cases b with
+      | el t i => cases i <;> simp [asgCode]
+      | _ => simp [asgCode]
+    | _ => simp [asgCode]
+  | el t i =>
+    cases i with
+    | k m => cases a <;> simp [asgCode]
+    | x =>
+      cases a with
+      | y => by_cases hz : zp t = true <;> simp [asgCode, hz]
+      | _ => simp [asgCode]
+    | y => cases a <;> simp [asgCode]
 
-theorem binCode_nat (v : LV) (op : BOp) (x y : RA) :
-    binCode (f n) (fun a => f (r a)) v op x y = (binCode n r v op x y).map fun p => (p.1, f p.2) := by
+theorem binCode_nat (zp : String → Bool) (v : LV) (op : BOp) (x y : RA) :
+    binCode (f n) (fun a => f (r a)) zp v op x y = (binCode n r zp v op x y).map fun p => (p.1, f p.2) := by
   unfold binCode
   by_cases h : orZeroReg op x y = true
   · simp [h, asgCode_nat]
@@ -44,17 +67,19 @@ theorem binCode_nat (v : LV) (op : BOp) (x y : RA) :
 
 theorem incCode_nat (b : Bool) (v : LV) :
     incCode (f n) (fun a => f (r a)) b v = (incCode n r b v).map fun p => (p.1, f p.2) := by
-  cases v <;> simp [incCode]
+  cases v with
+  | el t i => cases i <;> simp [incCode, loadA_nat, opCode_nat, storeA_nat]
+  | _ => simp [incCode]
 
-theorem rtemplate_nat (s : RStmt) :
-    rtemplate (f n) (fun a => f (r a)) s = (rtemplate n r s).map fun p => (p.1, f p.2) := by
+theorem rtemplate_nat (zp : String → Bool) (s : RStmt) :
+    rtemplate (f n) (fun a => f (r a)) zp s = (rtemplate n r zp s).map fun p => (p.1, f p.2) := by
   cases s <;> simp [rtemplate, asgCode_nat, binCode_nat, incCode_nat]
 
 end nat
 
-theorem rgenOps_eq (L : Layout) (s : RStmt) :
-    rgenOps L s = (rtemplate (none : Option Atom) (fun a => some a) s).map fun p => (p.1, GenStruct.opdOf L p.2) := by
-  have := rtemplate_nat (GenStruct.opdOf L) (none : Option Atom) (fun a => some a) s
+theorem rgenOps_eq (L : Layout) (zp : String → Bool) (s : RStmt) :
+    rgenOps L zp s = (rtemplate (none : Option Atom) (fun a => some a) zp s).map fun p => (p.1, GenStruct.opdOf L p.2) := by
+  have := rtemplate_nat (GenStruct.opdOf L) (none : Option Atom) (fun a => some a) zp s
   simpa [rgenOps, GenStruct.opdOf] using this
 
 end CV.GenReg
@@ -96,12 +121,12 @@ theorem steps_of_execSeq (L : Layout) (ops : List (Mn × Option Atom)) :
       simpa using hrest
 
 /-- a straight-line statement inside any context -/
-theorem flat_steps (L : Layout) (st : RStmt) (fl : Option FRef) (pre post : List GLine) (s : Cpu) (hinv : FlagsInv L fl s) :
-    ∃ s', Steps L (pre ++ flatLines st ++ post) pre.length s (pre.length + (flatLines st).length) s' ∧
-      srcOf s' = rspec L (srcOf s) st ∧ s'.sp = s.sp ∧ FlagsInv L (flagsAfter fl st) s' := by
-  obtain ⟨s', he, hm, hsp, hz⟩ := rflat_correct L st fl s hinv
+theorem flat_steps (L : Layout) (zp : String → Bool) (st : RStmt) (fl : Option FRef) (pre post : List GLine) (s : Cpu) (hinv : FlagsInv L fl s) :
+    ∃ s', Steps L (pre ++ flatLines zp st ++ post) pre.length s (pre.length + (flatLines zp st).length) s' ∧
+      srcOf s' = rspec L (srcOf s) st ∧ s'.sp = s.sp ∧ FlagsInv L (flagsAfter zp fl st) s' := by
+  obtain ⟨s', he, hm, hsp, hz⟩ := rflat_correct L zp st fl s hinv
   rw [rgenOps_eq] at he
-  have := steps_of_execSeq L (rtemplate (none : Option Atom) (fun a => some a) st) pre post s s' he
+  have := steps_of_execSeq L (rtemplate (none : Option Atom) (fun a => some a) zp st) pre post s s' he
   refine ⟨s', ?_, hm, hsp, hz⟩
   simpa [flatLines] using this
 
@@ -230,6 +255,7 @@ theorem loadRef_exec (L : Layout) (ref : LV) (s : Cpu) :
       s1.f.z = (rval L (srcOf s) ref.ra == 0) := by
   cases ref with
   | var v => simp [loadRefMn, loadRefOp, Cpu.exec, opdOf, opd, Cpu.rd, Cpu.ea, rval, LV.ra, val, srcOf]
+  | el t i => cases i <;> simp [loadRefMn, loadRefOp, Cpu.exec, opdOf, opd, Cpu.rd, Cpu.ea, rval, LV.ra, val, srcOf, elAddr]
   | x =>
     have := sub_beq_zero s.x 0
     simp [loadRefMn, loadRefOp, Cpu.exec, opdOf, opd, Cpu.rd, Cpu.cmp, rval, LV.ra, srcOf] at this ⊢
@@ -379,34 +405,106 @@ macro "len_arith" : tactic =>
 /-- the instructions of `cmpPre` as (mnemonic, operand) pairs -/
 def cmpOps : LV → Atom → List (Mn × Option Atom)
   | .var v, right => [(.LDA, some (.var v)), (.CMP, some right)]
+  | .el t i, right => [(.LDA, some (.el t i)), (.CMP, some right)]
+  | .x, .el t .x => [(.TXA, none), (.CMP, some (.el t .x))]
+  | .x, .el t .y => [(.TXA, none), (.CMP, some (.el t .y))]
   | .x, right => [(.CPX, some right)]
+  | .y, .el t .x => [(.TYA, none), (.CMP, some (.el t .x))]
+  | .y, .el t .y => [(.TYA, none), (.CMP, some (.el t .y))]
   | .y, right => [(.CPY, some right)]
 
 theorem cmpPre_eq (left : LV) (right : Atom) : cmpPre left right = (cmpOps left right).map fun p => GLine.ins p.1 p.2 := by
-  cases left <;> rfl
+  cases left <;> first | rfl | (cases right <;> first | rfl | (rename_i i; cases i <;> rfl))
+
+/-- `LDA a ; CMP right` -/
+theorem lda_cmp (L : Layout) (s : Cpu) (a right : Atom) :
+    ∃ s2, execSeq s [(.LDA, opd L a), (.CMP, opd L right)] = some s2 ∧
+      s2.f.z = (val L s.mem s.x s.y a == val L s.mem s.x s.y right) ∧
+      s2.f.c = decide ((val L s.mem s.x s.y right).toNat ≤ (val L s.mem s.x s.y a).toNat) ∧
+      srcOf s2 = srcOf s ∧ s2.sp = s.sp := by
+  have h1 := rd_opd L s a
+  have h2 := rd_opd L { s with a := val L s.mem s.x s.y a, f := Cpu.setNZ s.f (val L s.mem s.x s.y a) } right
+  have := sub_beq_zero (val L s.mem s.x s.y a) (val L s.mem s.x s.y right)
+  simp only [execSeq, Cpu.exec, h1, Option.map_some, Option.bind_some, h2]
+  simp [Cpu.cmp, srcOf]
+  exact this
+
+/-- `TXA ; CMP right`, `TYA ; CMP right` -/
+theorem txa_cmp (L : Layout) (s : Cpu) (right : Atom) :
+    ∃ s2, execSeq s [(.TXA, Opd.none), (.CMP, opd L right)] = some s2 ∧
+      s2.f.z = (s.x == val L s.mem s.x s.y right) ∧
+      s2.f.c = decide ((val L s.mem s.x s.y right).toNat ≤ s.x.toNat) ∧
+      srcOf s2 = srcOf s ∧ s2.sp = s.sp := by
+  have h2 := rd_opd L { s with a := s.x, f := Cpu.setNZ s.f s.x } right
+  have := sub_beq_zero s.x (val L s.mem s.x s.y right)
+  simp only [execSeq, Cpu.exec, Option.bind_some, h2, Option.map_some]
+  simp [Cpu.cmp, srcOf]
+  exact this
+
+theorem tya_cmp (L : Layout) (s : Cpu) (right : Atom) :
+    ∃ s2, execSeq s [(.TYA, Opd.none), (.CMP, opd L right)] = some s2 ∧
+      s2.f.z = (s.y == val L s.mem s.x s.y right) ∧
+      s2.f.c = decide ((val L s.mem s.x s.y right).toNat ≤ s.y.toNat) ∧
+      srcOf s2 = srcOf s ∧ s2.sp = s.sp := by
+  have h2 := rd_opd L { s with a := s.y, f := Cpu.setNZ s.f s.y } right
+  have := sub_beq_zero s.y (val L s.mem s.x s.y right)
+  simp only [execSeq, Cpu.exec, Option.bind_some, h2, Option.map_some]
+  simp [Cpu.cmp, srcOf]
+  exact this
+
+theorem cpx_exec (L : Layout) (s : Cpu) (right : Atom) :
+    ∃ s2, execSeq s [(.CPX, opd L right)] = some s2 ∧
+      s2.f.z = (s.x == val L s.mem s.x s.y right) ∧
+      s2.f.c = decide ((val L s.mem s.x s.y right).toNat ≤ s.x.toNat) ∧
+      srcOf s2 = srcOf s ∧ s2.sp = s.sp := by
+  have h2 := rd_opd L s right
+  have := sub_beq_zero s.x (val L s.mem s.x s.y right)
+  simp only [execSeq, Cpu.exec, h2, Option.map_some, Option.bind_some]
+  simp [Cpu.cmp, srcOf]
+  exact this
+
+theorem cpy_exec (L : Layout) (s : Cpu) (right : Atom) :
+    ∃ s2, execSeq s [(.CPY, opd L right)] = some s2 ∧
+      s2.f.z = (s.y == val L s.mem s.x s.y right) ∧
+      s2.f.c = decide ((val L s.mem s.x s.y right).toNat ≤ s.y.toNat) ∧
+      srcOf s2 = srcOf s ∧ s2.sp = s.sp := by
+  have h2 := rd_opd L s right
+  have := sub_beq_zero s.y (val L s.mem s.x s.y right)
+  simp only [execSeq, Cpu.exec, h2, Option.map_some, Option.bind_some]
+  simp [Cpu.cmp, srcOf]
+  exact this
 
 /-- after the compare: Z = (left = right), C = (right ≤ left); nothing the source sees changes -/
 theorem cmp_exec (L : Layout) (left : LV) (right : Atom) (s : Cpu) :
     ∃ s2, execSeq s ((cmpOps left right).map fun p => (p.1, opdOf L p.2)) = some s2 ∧
-      s2.f.z = (rval L (srcOf s) left.ra == val L s.mem right) ∧
-      s2.f.c = decide ((val L s.mem right).toNat ≤ (rval L (srcOf s) left.ra).toNat) ∧
+      s2.f.z = (rval L (srcOf s) left.ra == val L s.mem s.x s.y right) ∧
+      s2.f.c = decide ((val L s.mem s.x s.y right).toNat ≤ (rval L (srcOf s) left.ra).toNat) ∧
       srcOf s2 = srcOf s ∧ s2.sp = s.sp := by
   cases left with
-  | var v =>
-    have h2 : ∀ s1 : Cpu, s1.mem = s.mem → s1.rd (opd L right) = some (val L s.mem right) := by
-      intro s1 h; have := rd_opd L s1 right; rw [h] at this; exact this
-    have := sub_beq_zero (s.mem.read (L v)) (val L s.mem right)
-    cases right <;> simp [cmpOps, execSeq, Cpu.exec, opdOf, opd, Cpu.rd, Cpu.ea, Cpu.cmp, rval, LV.ra, val, srcOf] at this ⊢ <;> exact ⟨this, rfl⟩
+  | var v => exact lda_cmp L s (.var v) right
+  | el t i => exact lda_cmp L s (.el t i) right
   | x =>
-    have := sub_beq_zero s.x (val L s.mem right)
-    cases right <;> simp [cmpOps, execSeq, Cpu.exec, opdOf, opd, Cpu.rd, Cpu.ea, Cpu.cmp, rval, LV.ra, val, srcOf] at this ⊢ <;> exact ⟨this, rfl⟩
+    cases right with
+    | el t i =>
+      cases i with
+      | k n => exact cpx_exec L s (.el t (.k n))
+      | x => exact txa_cmp L s (.el t .x)
+      | y => exact txa_cmp L s (.el t .y)
+    | const n => exact cpx_exec L s (.const n)
+    | var w => exact cpx_exec L s (.var w)
   | y =>
-    have := sub_beq_zero s.y (val L s.mem right)
-    cases right <;> simp [cmpOps, execSeq, Cpu.exec, opdOf, opd, Cpu.rd, Cpu.ea, Cpu.cmp, rval, LV.ra, val, srcOf] at this ⊢ <;> exact ⟨this, rfl⟩
+    cases right with
+    | el t i =>
+      cases i with
+      | k n => exact cpy_exec L s (.el t (.k n))
+      | x => exact tya_cmp L s (.el t .x)
+      | y => exact tya_cmp L s (.el t .y)
+    | const n => exact cpy_exec L s (.const n)
+    | var w => exact cpy_exec L s (.var w)
 
 theorem cmpTest_correct (L : Layout) (g : GState) (left : LV) (right : Atom) (op : COp) (label : Lbl) :
     CondSpec L g (cmpTest g left right op label) label
-      (fun σ => op.eval (rval L σ left.ra) (val L σ.mem right)) := by
+      (fun σ => op.eval (rval L σ left.ra) (val L σ.mem σ.x σ.y right)) := by
   intro pre post s t hold hinv hl
   obtain ⟨s2, he, hz, hc, hsrc, hsp⟩ := cmp_exec L left right s
   let b := branchInstr { g with flags := none } op label
@@ -419,19 +517,19 @@ theorem cmpTest_correct (L : Layout) (g : GState) (left : LV) (right : Atom) (op
   have hold' : Old { g with flags := none } (pre ++ cmpPre left right) := by
     rw [old_flags]
     intro l hl
-    have : labels (cmpPre left right) = [] := by cases left <;> rfl
+    have : labels (cmpPre left right) = [] := labels_cmpPre left right
     simp [this] at hl; exact hold l hl
   have hl' : findLbl ((pre ++ cmpPre left right) ++ b.1 ++ post) label = some t := by
     simpa [List.append_assoc] using hl
   have h3 := branchInstr_steps L { g with flags := none } op label (pre ++ cmpPre left right) post s2 t
-    (rval L (srcOf s) left.ra) (val L s.mem right) hz hc hold' hl'
+    (rval L (srcOf s) left.ra) (val L s.mem s.x s.y right) hz hc hold' hl'
   have w2 : (pre ++ cmpPre left right) ++ b.1 ++ post = pre ++ (cmpPre left right ++ b.1) ++ post := by simp
   rw [w2] at h3
   have hlen : (cmpPre left right).length = (cmpOps left right).length := by rw [cmpPre_eq]; simp
   refine ⟨s2, ?_, hsrc, hsp, ?_⟩
-  · show Steps L _ pre.length s (if op.eval (rval L (srcOf s) left.ra) (val L (srcOf s).mem right) = true then t else _) s2
-    simp only [srcOf_mem]
-    rcases Bool.eq_false_or_eq_true (op.eval (rval L (srcOf s) left.ra) (val L s.mem right)) with hev | hev
+  · show Steps L _ pre.length s (if op.eval (rval L (srcOf s) left.ra) (val L (srcOf s).mem (srcOf s).x (srcOf s).y right) = true then t else _) s2
+    simp only [srcOf_mem, srcOf_x, srcOf_y]
+    rcases Bool.eq_false_or_eq_true (op.eval (rval L (srcOf s) left.ra) (val L s.mem s.x s.y right)) with hev | hev
     · simp only [hev, if_true] at h3 ⊢
       exact h12.trans (h3.cast (by rw [List.length_append, hlen]) rfl)
     · simp only [hev, Bool.false_eq_true, if_false] at h3 ⊢
@@ -463,9 +561,10 @@ theorem CondSpec.congr {L : Layout} {g : GState} {r : List GLine × GState} {lab
   have : j = j' := funext h
   rw [← this]; exact hs
 
-theorem isZero_val (L : Layout) (m : Mem) (a : Atom) (h : RA.isZero (.of a) = true) : val L m a = 0 := by
+theorem isZero_val (L : Layout) (m : Mem) (x y : Byte) (a : Atom) (h : RA.isZero (.of a) = true) : val L m x y a = 0 := by
   cases a with
   | var _ => simp [RA.isZero] at h
+  | el _ _ => simp [RA.isZero] at h
   | const n => simpa [RA.isZero, val] using h
 
 /-- compare `left` with `right`: by the flags alone when `right` is literal 0 and the shortcut applies, by a
@@ -473,14 +572,14 @@ theorem isZero_val (L : Layout) (m : Mem) (a : Atom) (h : RA.isZero (.of a) = tr
 theorem worker_correct (L : Layout) (g : GState) (left : LV) (right : Atom) (op' : COp) (label : Lbl) (short : Bool)
     (hun : RA.isZero (.of right) = true → op' = .eq ∨ op' = .ne) :
     CondSpec L g (if (RA.isZero (.of right) && short) = true then zeroTest g left op' label else cmpTest g left right op' label) label
-      (fun σ => op'.eval (rval L σ left.ra) (val L σ.mem right)) := by
+      (fun σ => op'.eval (rval L σ left.ra) (val L σ.mem σ.x σ.y right)) := by
   by_cases hc : (RA.isZero (.of right) && short) = true
   · rw [if_pos hc]
     have hz : RA.isZero (.of right) = true := by
       cases h : RA.isZero (.of right) <;> simp [h] at hc ⊢
     refine (zeroTest_correct L g left op' label (hun hz)).congr ?_
     intro σ
-    rw [isZero_val L σ.mem right hz]
+    rw [isZero_val L σ.mem σ.x σ.y right hz]
   · rw [if_neg hc]
     exact cmpTest_correct L g left right op' label
 
@@ -488,7 +587,7 @@ theorem genCondEx_correct (L : Layout) (g : GState) (l r : RA) (op : COp) (negat
     (hok : CondOK (.cmp op l r) = true) :
     CondSpec L g (genCondEx g l r op negate label) label (fun σ => op.eval (rval L σ l) (rval L σ r) != negate) := by
   simp only [CondOK, Bool.and_eq_true, Bool.not_eq_true', Bool.and_eq_false_iff, Bool.or_eq_false_iff] at hok
-  obtain ⟨⟨hcc, hrr⟩, hord⟩ := hok
+  obtain ⟨⟨⟨hcc, hrr⟩, hord⟩, hel⟩ := hok
   -- an ordered operator never meets a literal 0
   have hun : ∀ (sw : Bool) (a : Atom), (RA.isZero l = true ∨ RA.isZero r = true) → RA.isZero (.of a) = true →
       finalOp op negate sw = .eq ∨ finalOp op negate sw = .ne := by
@@ -539,6 +638,15 @@ theorem genCondEx_correct (L : Layout) (g : GState) (l r : RA) (op : COp) (negat
           intro σ
           have := finalOp_eval op negate true (rval L σ (.of (.const n))) (rval L σ (.of (.var w)))
           simpa [rval, LV.ra, val] using this
+        | el t i =>
+          simp only [genCondEx, orient]
+          have := worker_correct L g (.el t i) (.const n) (finalOp op negate true) label true
+            (fun hz => hun true (.const n) (Or.inl hz) hz)
+          simp only [Bool.and_true] at this
+          refine this.congr ?_
+          intro σ
+          have := finalOp_eval op negate true (rval L σ (.of (.const n))) (rval L σ (.of (.el t i)))
+          simpa [rval, LV.ra, val] using this
       | x =>
         simp only [genCondEx, orient]
         have := worker_correct L g .x (.const n) (finalOp op negate true) label (g.flags == some .x)
@@ -582,6 +690,41 @@ theorem genCondEx_correct (L : Layout) (g : GState) (l r : RA) (op : COp) (negat
         intro σ
         have := finalOp_eval op negate true (rval L σ (.of (.var v))) (rval L σ .y)
         simpa [rval, LV.ra, val] using this
+    | el t i =>
+      cases r with
+      | of right =>
+        simp only [genCondEx, orient, RA.isReg, Bool.false_eq_true, if_false]
+        have := worker_correct L g (.el t i) right (finalOp op negate false) label true
+          (fun hz => hun false right (Or.inr hz) hz)
+        simp only [Bool.and_true] at this
+        refine this.congr ?_
+        intro σ
+        have := finalOp_eval op negate false (rval L σ (.of (.el t i))) (rval L σ (.of right))
+        simpa [rval, LV.ra, val] using this
+      | x =>
+        cases i with
+        | k m =>
+          simp only [genCondEx, orient, RA.isReg, if_true]
+          have := worker_correct L g .x (.el t (.k m)) (finalOp op negate true) label (g.flags == some .x)
+            (fun hz => by simp [RA.isZero] at hz)
+          refine this.congr ?_
+          intro σ
+          have := finalOp_eval op negate true (rval L σ (.of (.el t (.k m)))) (rval L σ .x)
+          simpa [rval, LV.ra, val] using this
+        | x => simp [RA.isRegEl, RA.isReg] at hel
+        | y => simp [RA.isRegEl, RA.isReg] at hel
+      | y =>
+        cases i with
+        | k m =>
+          simp only [genCondEx, orient, RA.isReg, if_true]
+          have := worker_correct L g .y (.el t (.k m)) (finalOp op negate true) label (g.flags == some .y)
+            (fun hz => by simp [RA.isZero] at hz)
+          refine this.congr ?_
+          intro σ
+          have := finalOp_eval op negate true (rval L σ (.of (.el t (.k m)))) (rval L σ .y)
+          simpa [rval, LV.ra, val] using this
+        | x => simp [RA.isRegEl, RA.isReg] at hel
+        | y => simp [RA.isRegEl, RA.isReg] at hel
 
 /-- the specification of condition code with several tests: as `CondSpec`, except that on the jumping exit
     the flag belief is claimed only when a single test jumps there (`single`) -/
